@@ -68,6 +68,32 @@ def body_prologue(E, n, with_bounds):
         E.prove(E.all([E.eq(got['x0'][i], xp[i]) for i in range(n)]), 'prologue:starting-point-is-the-projection-of-x0')
 
 
+def body_model_accessors(E, n):
+    """with general convex constraints every point the model hands out in absolute coordinates - as_absolute_coordinates, xpt / xopt with
+    abs_coordinates=True, and the x of get_final_results (the start of the next run after a hard restart) - is an output of the alternating
+    projection over the model's projector list"""
+    from ..state import mk_model
+    np = E.np
+    M, ghost = mk_model(E, n, 1, n + 1, n + 1, with_h=False, xr=False, with_save=False, box=False)
+    userP, boxP = (lambda w: w), (lambda w: w)
+    M.projections = [userP, boxP]
+    dcalls = []
+
+    def dykstra(P, x, max_iter=100, tol=1e-10):
+        z = E.vec('dy%d_' % len(dcalls), n)
+        dcalls.append({'P': list(P), 'out': z})
+        return z
+    E.patch('dykstra', dykstra)
+
+    def is_output(x):
+        return E.any([E.all([E.eq(x[i], dc['out'][i]) for i in range(n)]) for dc in dcalls]) if dcalls else False
+    k = int(E.int('k', 0, n))
+    for name, x in (('as_absolute_coordinates', M.as_absolute_coordinates(E.vec('p', n))), ('xpt', M.xpt(k, abs_coordinates=True)),
+                    ('xopt', M.xopt(abs_coordinates=True)), ('get_final_results', M.get_final_results()[0])):
+        E.prove(is_output(x), 'model:%s-in-absolute-coordinates-is-an-alternating-projection-output' % name)
+    E.prove(all(len(dc['P']) == 2 and dc['P'][-1] is boxP for dc in dcalls), 'model:projection-uses-the-model-list-with-the-box-last')
+
+
 def harnesses(tier, seed):
     hs = step.step_harnesses(tier, seed, 'C09')
     for n in ([1, 2] if tier == 'quick' else [1, 2, 3]):
@@ -77,8 +103,13 @@ def harnesses(tier, seed):
                               bounds="n=%d, one user projector, any x0 (feasible or not), any box with gap >= 2*rhobeg; |x0|, |bounds| <= 1e15" % n,
                               assumptions=["dykstra stubbed: arbitrary output inside the box (C15); solve_main stubbed: captures its arguments"],
                               expect=['prologue:starting-point-is-the-projection-of-x0'], nproc=1))
+    for n in ([1, 2] if tier == 'quick' else [1, 2, 3]):
+        hs.append(Harness("model-accessors[n=%d]" % n, 'dfverif.checks.c09', 'body_model_accessors', params=dict(n=n), cfg=core.Cfg(qtimeout_ms=20000),
+                          functions=['model.Model.as_absolute_coordinates', 'model.Model.xpt', 'model.Model.xopt', 'model.Model.get_final_results'],
+                          bounds="n=%d, any model state, projections = [user set, box]" % n, assumptions=["dykstra stubbed: fresh vector per call (C15)"],
+                          expect=['model:get_final_results-in-absolute-coordinates-is-an-alternating-projection-output'], nproc=1))
     for h in c15.harnesses(tier, seed):
-        if h.name.startswith('stoprule[n=2,p=3') or h.name.startswith('box-exact-binary64[n=1]'):
+        if h.name.startswith('stoprule[n=2,p=3') or h.name.startswith('box-exact-binary64[n=1]') or 'in-place' in h.name:
             h.home = 'C09'
             h.name = 'C15-lemma:' + h.name
             hs.append(h)
